@@ -9,7 +9,7 @@
 From V.lib Require Import Base.
 From V.model Require Import Requests Sync SyncSpec Peer.
 From V.gen Require Import Consts.
-From V.proofs Require Import Sync_Proofs Converge_Proofs.
+From V.proofs Require Import Sync_Proofs Converge_Proofs Converge_Clean Converge_Fork Converge_Pre.
 
 (* ---- safety ------------------------------------------------------------------------------
    "announced so far": the blocks for which the node was given a header by the peer and registered it
@@ -44,3 +44,171 @@ Theorem C01_reachable_inv :
   CInv MAXR parent_of (wrun MAXR LIM HT HDT BT DELTA M parent_of (cw_init start) acts).
 Proof. intros. apply wrun_inv. apply cw_init_inv. Qed.
 Print Assumptions C01_reachable_inv.
+
+(* ---- liveness ----------------------------------------------------------------------------
+   Full statement (refuted as quantified, see C01_converges_refuted_out_of_order):
+     converges : forall acts, let w := wrun ... (cw_init start) acts in
+                 exists n, converged (settle ... n w) = true.
+   What is proved:
+   (1) C01_converges_fresh - for EVERY combined world (reachable or not) in which the connection to the
+       peer has just been (re)established and the node is behind the peer on the peer's own best chain
+       (executable predicate clean_behind: node's stored chain = a prefix of the peer's best chain, start
+       block found, no request / flag left from the old connection, `version` and possibly inventories
+       of new tips in flight), the settling run comes to REST with the node's chain equal to the peer's
+       best chain and the node in sync.  Every time-out, lost connection and node restart produces a
+       freshly connected world, so this covers: initial sync from any stored prefix, any number of peer
+       extensions while disconnected or before the handshake, across restarts, with getheaders replies
+       capped at any M >= 2 and any request window 1 <= MAXR <= LIM.  The proof follows the real
+       protocol: handshake locator, reply, registration in the request window (requested / to be
+       requested), getdata, blocks, processing, polling with the delta-1 locator until the reply is the
+       tip alone, sendheaders, notification.
+   (1b), (1c) below: the same for a node whose chain has forked from the peer's (reorganisation while
+       disconnected) and for a node that has not found its start block yet.  In the generated histories
+       2980 of 3000 worlds right after a (re)connection satisfy one of the three predicates (the check
+       recounts this at every run: evidence key reconnect_worlds_covered); the others are "forked AND start
+       block not found".
+   (2) left to the correspondence exploration (bin/check C01: 0 failures on in-order histories):
+       worlds with messages in flight that were produced before a peer event (reorganisations in the
+       middle of a sync on the same connection), and forked + start block not found.
+   Peer-relative safety ("every header the node consumed that lies on the peer's best chain is stored
+   when in sync is notified") and `converges` for ALL in-order, duplicate-free histories are NOT proved;
+   they are what the monitor checks on every history (codes 106 / 102, none observed).
+   M, MAXR, LIM and the time-outs are symbolic. *)
+Theorem C01_converges_fresh :
+  forall (MAXR LIM HT HDT BT DELTA : Z) (M : nat) (parent_of : Z -> Z),
+  (2 <= M)%nat -> 1 <= MAXR -> MAXR <= LIM ->
+  forall w : cworld,
+  clean_behind parent_of w = true ->
+  exists n, converged (settle MAXR LIM HT HDT BT DELTA M parent_of n w) = true /\
+            quiescent MAXR LIM HT HDT BT DELTA M parent_of (settle MAXR LIM HT HDT BT DELTA M parent_of n w) = true.
+Proof.
+  intros MAXR LIM HT HDT BT DELTA M parent_of HM H1 H2 w Hc.
+  destruct (converges_clean_behind MAXR LIM HT HDT BT DELTA M parent_of HM H1 H2 w Hc) as (n & Hn & Hk).
+  exists n. split; [exact Hn|]. unfold quiescent. unfold skind in Hk. rewrite Hk. reflexivity.
+Qed.
+Print Assumptions C01_converges_fresh.
+
+(* the same with the constants of the code (translator output) and replies of 2000 headers *)
+Theorem C01_converges_fresh_consts :
+  forall (parent_of : Z -> Z) (w : cworld),
+  clean_behind parent_of w = true ->
+  exists n, converged (settle maxRequestedBlocks maxPendingBlockSize handshakeTimeout headerTimeout blockTimeout
+                              UntrustedHeaderDelta 2000 parent_of n w) = true.
+Proof.
+  intros parent_of w Hc.
+  destruct (C01_converges_fresh maxRequestedBlocks maxPendingBlockSize handshakeTimeout headerTimeout blockTimeout
+              UntrustedHeaderDelta 2000 parent_of) with (w := w) as (n & Hn & _); try assumption.
+  - lia.
+  - unfold maxRequestedBlocks. lia.
+  - unfold maxRequestedBlocks, maxPendingBlockSize. lia.
+  - exists n. exact Hn.
+Qed.
+Print Assumptions C01_converges_fresh_consts.
+
+(* (1b) the same when a reorganisation happened while the node was disconnected: the node's stored chain
+   has FORKED from the peer's best chain (executable predicate clean_forked: common prefix of f blocks,
+   the node's other blocks not on the peer's chain, start block found, freshly connected, and the peer's
+   reply to the handshake locator - which starts after the first locator hash on its best chain - reaches
+   block f: f <= i + M; with replies of 2000 headers this only excludes reorganisations thousands of blocks
+   deep).  The known headers of the reply are skipped, the first unknown one reverts the store to the
+   fork point (the chain part of the reorg handling of headers.go), the rest are registered. *)
+Theorem C01_converges_fresh_forked :
+  forall (MAXR LIM HT HDT BT DELTA : Z) (M : nat) (parent_of : Z -> Z),
+  (2 <= M)%nat -> 1 <= MAXR -> MAXR <= LIM ->
+  forall w : cworld,
+  clean_forked M parent_of w = true ->
+  exists n, converged (settle MAXR LIM HT HDT BT DELTA M parent_of n w) = true /\
+            quiescent MAXR LIM HT HDT BT DELTA M parent_of (settle MAXR LIM HT HDT BT DELTA M parent_of n w) = true.
+Proof.
+  intros MAXR LIM HT HDT BT DELTA M parent_of HM H1 H2 w Hc.
+  destruct (converges_clean_forked MAXR LIM HT HDT BT DELTA M parent_of HM H1 H2 w Hc) as (n & Hn & Hk).
+  exists n. split; [exact Hn|]. unfold quiescent. unfold skind in Hk. rewrite Hk. reflexivity.
+Qed.
+Print Assumptions C01_converges_fresh_forked.
+
+(* (1c) the same when the node has not found its start block yet (start_height = -1; executable predicate
+   clean_behind_pre): headers before the start block are stored without their blocks, from the start
+   block on blocks are requested; a start block that never appears on the peer's chain leaves a
+   header-only node that is "in sync before the start block was found". *)
+Theorem C01_converges_fresh_prestart :
+  forall (MAXR LIM HT HDT BT DELTA : Z) (M : nat) (parent_of : Z -> Z),
+  (2 <= M)%nat -> 1 <= MAXR -> MAXR <= LIM ->
+  forall w : cworld,
+  clean_behind_pre parent_of w = true ->
+  exists n, converged (settle MAXR LIM HT HDT BT DELTA M parent_of n w) = true /\
+            quiescent MAXR LIM HT HDT BT DELTA M parent_of (settle MAXR LIM HT HDT BT DELTA M parent_of n w) = true.
+Proof.
+  intros MAXR LIM HT HDT BT DELTA M parent_of HM H1 H2 w Hc.
+  destruct (converges_clean_behind_pre MAXR LIM HT HDT BT DELTA M parent_of HM H1 H2 w Hc) as (n & Hn & Hk).
+  exists n. split; [exact Hn|]. unfold quiescent. unfold skind in Hk. rewrite Hk. reflexivity.
+Qed.
+Print Assumptions C01_converges_fresh_prestart.
+
+(* Non-vacuity: a clean start, extensions and a reorganisation of processed blocks handled on line,
+   then the connection is lost and the peer extends twice more: the world is freshly connected and
+   behind (clean_behind), with an inventory of the new tip in flight - and it is reachable. *)
+Example C01_example_parents : list (Z * Z) :=
+  [(1, 0); (2, 1); (3, 2); (4, 3); (5, 4); (10, 2); (11, 10); (12, 11); (13, 12); (14, 13); (15, 14); (16, 15)].
+(* the schedule: after every peer event the messages are consumed in order (the actions of the settling
+   run, computed), except after the last one *)
+Definition C01_ex_run (w : cworld) (acts : list act) : cworld :=
+  wrun 10 100000000 30 60 600 6 3 (table_fn C01_example_parents) w acts.
+Definition C01_ex_settle (w : cworld) : list act :=
+  settle_acts 10 100000000 30 60 600 6 3 (table_fn C01_example_parents) 60 w.
+Example C01_example_acts : list act := Eval vm_compute in
+  let a1 := [APeerSet [0; 1; 2; 3]] in
+  let a2 := a1 ++ C01_ex_settle (C01_ex_run (cw_init 0) a1) in
+  let a3 := a2 ++ [APeerSet [0; 1; 2; 3; 4; 5]] in
+  let a4 := a3 ++ C01_ex_settle (C01_ex_run (cw_init 0) a3) in
+  let a5 := a4 ++ [APeerSet [0; 1; 2; 10; 11; 12; 13]] in
+  let a6 := a5 ++ C01_ex_settle (C01_ex_run (cw_init 0) a5) in
+  a6 ++ [ADisconnect; APeerSet [0; 1; 2; 10; 11; 12; 13; 14; 15; 16]].
+Example C01_example_world : cworld := C01_ex_run (cw_init 0) C01_example_acts.
+Example C01_example :
+  clean_behind (table_fn C01_example_parents) C01_example_world = true /\
+  map fst (chain (node_sync C01_example_world)) = [0; 1; 2; 10; 11; 12; 13] /\
+  best C01_example_world = [0; 1; 2; 10; 11; 12; 13; 14; 15; 16] /\
+  cw_chan C01_example_world = [MVersion; MInv 16] /\
+  converged (settle 10 100000000 30 60 600 6 3 (table_fn C01_example_parents) 60 C01_example_world) = true.
+Proof. vm_compute. repeat split; reflexivity. Qed.
+
+(* Non-vacuity of (1b): the same history, but the reorganisation [0;1;2;3;4;5] -> [0;1;2;10;...;13] happens
+   while the node is disconnected (reachable world, forked at f = 3, handshake reply from block 1). *)
+Example C01_fork_acts : list act := Eval vm_compute in
+  let a1 := [APeerSet [0; 1; 2; 3; 4; 5]] in
+  let a2 := a1 ++ C01_ex_settle (C01_ex_run (cw_init 0) a1) in
+  a2 ++ [ADisconnect; APeerSet [0; 1; 2; 10; 11; 12; 13]].
+Example C01_fork_world : cworld := C01_ex_run (cw_init 0) C01_fork_acts.
+Example C01_fork_example :
+  clean_forked 3 (table_fn C01_example_parents) C01_fork_world = true /\
+  clean_behind (table_fn C01_example_parents) C01_fork_world = false /\
+  map fst (chain (node_sync C01_fork_world)) = [0; 1; 2; 3; 4; 5] /\
+  best C01_fork_world = [0; 1; 2; 10; 11; 12; 13] /\
+  converged (settle 10 100000000 30 60 600 6 3 (table_fn C01_example_parents) 80 C01_fork_world) = true.
+Proof. vm_compute. repeat split; reflexivity. Qed.
+
+(* Non-vacuity of (1c): the node is configured with start block 12 and connects for the first time when
+   the peer's chain is [0;1;2;10;11;12;13] (reachable: the initial world after one peer event). *)
+Example C01_pre_world : cworld := C01_ex_run (cw_init 12) [APeerSet [0; 1; 2; 10; 11; 12; 13]].
+Example C01_pre_example :
+  clean_behind_pre (table_fn C01_example_parents) C01_pre_world = true /\
+  start_height (node_sync C01_pre_world) = -1 /\
+  let w' := settle 10 100000000 30 60 600 6 3 (table_fn C01_example_parents) 80 C01_pre_world in
+  converged w' = true /\ start_height (node_sync w') = 5.
+Proof. vm_compute. repeat split; reflexivity. Qed.
+
+(* The full statement is REFUTED for out-of-order delivery (what one TCP connection cannot do): the
+   inventory of a new tip overtakes an older, still in-flight empty getheaders reply while the node is
+   not in sync; the inventory is dropped, the stale reply says "in sync": the node rests in sync one block
+   behind for ever (real code: same observations, bin/check key converge:c01:107:settle). *)
+Example C01_refute_acts : list act :=
+  [ADeliver 0; ACheck; AAnswer 0; APeerSet [0; 1]; ADeliver 1].
+Theorem C01_converges_refuted_out_of_order :
+  let w := wrun maxRequestedBlocks maxPendingBlockSize handshakeTimeout headerTimeout blockTimeout
+                UntrustedHeaderDelta 2000 (table_fn [(1, 0)]) (cw_init 0) C01_refute_acts in
+  forall n, converged (settle maxRequestedBlocks maxPendingBlockSize handshakeTimeout headerTimeout blockTimeout
+                              UntrustedHeaderDelta 2000 (table_fn [(1, 0)]) n w) = false.
+Proof.
+  intros w. apply (rest_not_converged _ _ _ _ _ _ _ _ w 6); vm_compute; reflexivity.
+Qed.
+Print Assumptions C01_converges_refuted_out_of_order.
